@@ -10,7 +10,7 @@ RULE = ('unit level: corpus + seeded strings (ASCII / 2-,3-,4-byte characters, m
         'utils.str.byteTextWrap, ircutils.FormatParser, ircutils.wrap, ircutils.stripFormatting and through the extracted model, diffed; '
         'live level: a booted bot (Owner, Misc + a 6-line reply plugin) answers a command with the generated string under generated settings '
         '(reply.mores, mores.length/maximum/instant, Misc.mores, withNickPrefix, withNoticeWhenPrivate, bot hostmask 10..63 bytes, channel / '
-        'private target, sender nick 1..30), then `more` is sent until exhaustion; the whole transcript taken from takeMsg() is diffed against '
+        'private target, sender nick 1..30; private=/to=/notice= keywords; `more <nick>` by another user; the bot learning its hostmask from its own JOIN and being renamed by server NICK messages), then `more` is sent until exhaustion; the whole transcript taken from takeMsg() is diffed against '
         'the model transcript and the property (<=512 bytes once prefixed, visible text in order, remaining-count suffixes) is evaluated on it.  '
         'non-trivial = distinct input whose text is non-empty')
 TRUSTED = ['textwrap.TextWrapper()._split_chunks enters byteTextWrap/wrap_w as an explicit word-list input (any list; the theorems only use '
@@ -393,8 +393,21 @@ def live_run(inp, max_rounds=400):
     import supybot.callbacks as callbacks
     callbacks.NestedCommandsIrcProxy._mores.clear()
     botnick = inp['botprefix'].split('!')[0]
-    irc.prefix = inp['botprefix']
-    irc.nick = botnick
+    if inp.get('rename'):
+        # the bot learns its hostmask from its own JOIN and is renamed by the server: irc.prefix is whatever
+        # Irc.feedMsg / Irc.doNick make of it; inp['botprefix'] is the hostmask the SERVER prepends afterwards
+        nicks, userhost = inp['rename'], inp['botprefix'].split('!', 1)[1]
+        assert nicks[-1] == botnick
+        irc.nick = nicks[0]
+        irc.prefix = '%s!%s@%s' % (nicks[0], 'limnoria', 'unset.domain')     # as Irc.reset() leaves it
+        irc.feedMsg(ircmsgs.IrcMsg(':%s!%s JOIN %s' % (nicks[0], userhost, inp['chan'])))
+        for cur, new in zip(nicks, nicks[1:]):
+            irc.feedMsg(ircmsgs.IrcMsg(':%s!%s NICK %s' % (cur, userhost, new)))
+        drain(irc)
+        inp['_ident'] = [irc.nick, irc.prefix]
+    else:
+        irc.prefix = inp['botprefix']
+        irc.nick = botnick
     r = conf.supybot.reply
     r.mores.setValue(inp['mores'])
     r.mores.length.setValue(inp['length'])
@@ -583,6 +596,16 @@ def gen_live(rng, kind):
     if kind == 'keywords':
         tk = rng.choice(['plain', 'plain', 'mb'])
         nchunks = rng.choice([2, 3, 4])
+    if kind == 'rename':
+        # the server renames the bot (longer / shorter nick) after it learnt its hostmask from its own JOIN
+        inp.update(private=rng.random() < 0.15, mores=True, length=0)
+        nicks = ['b' * rng.choice([1, 4, 9])]
+        for _ in range(rng.choice([1, 1, 2])):
+            nicks.append(rng.choice(['B', 'Bot', 'Limnoria_', 'R' * 16, 'Z' * 30])[:rng.choice([1, 3, 9, 16, 30])] + str(len(nicks)))
+        inp['rename'] = nicks
+        inp['botprefix'] = nicks[-1] + '!' + inp['botprefix'].split('!', 1)[1]
+        tk = rng.choice(['plain', 'mb'])
+        nchunks = rng.choice([2, 3, 4])
     if kind == 'nickmore':
         # another user looks at the owner's pending chunks with `more <nick>`, interleaved with her own `more`
         inp.update(private=False, mores=True)
@@ -591,7 +614,7 @@ def gen_live(rng, kind):
         nchunks = rng.choice([3, 4, 6, 9])
     target_bytes = int(allowed * nchunks * rng.uniform(0.5, 1.0))
     maxword = rng.choice([12, 12, 12, 40, allowed + 50, 3 * allowed])
-    if tk == 'junction':
+    if tk == 'junction' or kind == 'rename':
         maxword = rng.choice([allowed + 50, 2 * allowed])
     words, total = [], 0
     while total < target_bytes:
@@ -608,6 +631,8 @@ def gen_live(rng, kind):
 
 # witnesses of the repaired defects C12.F40, F42, F41, F13, F12 (must stay green), then F14's
 LIVE_CORPUS = [
+    {'op': 'live', 'kind': 'corpus', 'botprefix': 'LongerBotNick_123456!user@host.example', 'nick': 'alice', 'chan': '#chan', 'private': False, 'prefixNick': True, 'noticePriv': True, 'mores': True, 'length': 0, 'maximum': 50, 'instant': 1, 'number': 1, 's': 'yyyyyyyyyyyyyyyyyyyyyyyyyyyyyyyyyyyyyyyyyyyyyyyyyyyyyyyyyyyyyyyyyyyyyyyyyyyyyyyyyyyyyyyyyyyyyyyyyyyyyyyyyyyyyyyyyyyyyyyyyyyyyyyyyyyyyyyyyyyyyyyyyyyyyyyyyyyyyyyyyyyyyyyyyyyyyyyyyyyyyyyyyyyyyyyyyyyyyyyyyyyyyyyyyyyyyyyyyyyyyyyyyyyyyyyyyyyyyyyyyyyyyyyyyyyyyyyyyyyyyyyyyyyyyyyyyyyyyyyyyyyyyyyyyyyyyyyyyyyyyyyyyyyyyyyyyyyyyyyyyyyyyyyyyyyyyyyyyyyyyyyyyyyyyyyyyyyyyyyyyyyyyyyyyyyyyyyyyyyyyyyyyyyyyyyyyyyyyyyyyyyyyyyyyyyyyyyyyyyyyyyyyyyyyyyyyyyyyyyyyyyyyyyyyyyyyyyyyyyyyyyyyyyyyyyyyyyyyyyyyyyyyyyyyyyyyyyyyyyyyyyyyyyyyyyyyyyyyyyyyyyyyyyyyyyyyyyyyyyyyyyyyyyyyyyyyyyyyyyyyyyyyyyyyyyyyyyyyyyyyyyyyyyyyyyyyyyyyyyyyyyyyyyyyyyyyyyyyyyyyyyyyyyyyyyyyyyyyyyyyyyyyyyyyyyyyyyyyyyyyyyyyyyyyyyyyyyyyyyyyyyyyyyyyyyyyyyyyyyyyyyyyyyyyyyyyyyyyyyyyyyyyyyyyyyyyyyyyyyyyyyyyyyyyyyyyyyyyyyyyyyyyyyyyyyyyyyyyyyyyyyyyyyyyyyyyyyyyyyyyyyyyyyyyyyyyyyyyyyyyyyyyyyyyyyyyyyyyyyyyyyyyyyyyyyyyyyyyyyyyyyyyyyyyyyyyyyyyyyyyyyyyyyyyyyyyyyyyyyyyyyyyyyyyyyyyyyyyyyyyyyyyyyyyyyyyyyyyyyyyyyyyyyyyyyyyyyyyyyyyyyyyyyyyyyyyyyyyyyyyyyyyyyyyyyyyyyyyyyyyyyyyyyyyyyyyyyyyyyyyyyyyyyyyyyyyyyyyyyyyyyyyyyyyyyyyyyyyyyyyyyyyyyyyyyyyyyyyyyyyyyyyyyyyyyyyyyyyyyyyyyyyyyyyyyyyyyyyyyyyyyyyyyyyyyyyyyyyyyyyyyyyyyyyyyyyyyyyyyyyyyyyyyyyyyyyyyyyyyyyyyyyyyyyyyyyyyyyyyyyyyyyyyyyyyyyyyyyyyyyyyyyyyyyyyyyyyyyyyyyyyyyyyyyyyyyyyyyyyyyyyyyyyyyyyyyyyyyyyyyyyyyyyyyyyyyyyyyyyyyyyyyyyyyyyyyyyyyyyyyyyyyyyyyyyyyyyyyyyyyyyyyyyyyyyyyyyyyyyyyyyyyyyyyyyyyyyyyyyyyyyyyyyyyyyyyyyyyyyyyyyyyyyyyyyyyyyyyyyyyyyyyyyyyyyyyyyyyyyyyyyyyyyyyyyyyyyyyyyyyyyyyyyyyyyyyyyyyyyyyyyyyyyyyyyyyyyyyyyy', 'rename': ['b', 'LongerBotNick_123456']},   # the bot is renamed to a longer nick after its own JOIN: chunks must be sized for the new hostmask
+    {'op': 'live', 'kind': 'corpus', 'botprefix': 'LongerBotNick_123456!user@host.example', 'nick': 'alice', 'chan': '#chan', 'private': False, 'prefixNick': True, 'noticePriv': True, 'mores': True, 'length': 0, 'maximum': 50, 'instant': 1, 'number': 1, 's': 'http://example.org/qqqqqqqqqqqqqqqqqqqqqqqqqqqqqqqqqqqqqqqqqqqqqqqqqqqqqqqqqqqqqqqqqqqqqqqqqqqqqqqqqqqqqqqqqqqqqqqqqqqqqqqqqqqqqqqqqqqqqqqqqqqqqqqqqqqqqqqqqqqqqqqqqqqqqqqqqqqqqqqqqqqqqqqqqqqqqqqqqqqqqqqqqqqqqqqqqqqqqqqqqqqqqqqqqqqqqqqqqqqqqqqqqqqqqqqqqqqqqqqqqqqqqqqqqqqqqqqqqqqqqqqqqqqqqqqqqqqqqqqqqqqqqqqqqqqqqqqqqqqqqqqqqqqqqqqqqqqqqqqqqqqqqqqqqqqqqqqqqqqqqqqqqqqqqqqqqqqqqqqqqqqqqqqqqqqqqqqqqqqqqqqqqqqqqqqqqqqqqqqqqqqqqqqqqqqqqqqqqqqqqqqqqqqqqqqqqqqqqqqqqqqqqqqqqqqqqqqqqqqqqqqqqqqqqqqqqqqqqqqqqqqqqqqqqqqqqqqqqqqqqqqqqqqqqqqqqqqqqqqqqqqqqqqqqqqqqqqqqqqqqqqqqqqqqqqqqqqqqqqqqqqqqqqqqqqqqqqqqqqqqqqqqqqqqqqqqqqqqqqq http://example.org/qqqqqqqqqqqqqqqqqqqqqqqqqqqqqqqqqqqqqqqqqqqqqqqqqqqqqqqqqqqqqqqqqqqqqqqqqqqqqqqqqqqqqqqqqqqqqqqqqqqqqqqqqqqqqqqqqqqqqqqqqqqqqqqqqqqqqqqqqqqqqqqqqqqqqqqqqqqqqqqqqqqqqqqqqqqqqqqqqqqqqqqqqqqqqqqqqqqqqqqqqqqqqqqqqqqqqqqqqqqqqqqqqqqqqqqqqqqqqqqqqqqqqqqqqqqqqqqqqqqqqqqqqqqqqqqqqqqqqqqqqqqqqqqqqqqqqqqqqqqqqqqqqqqqqqqqqqqqqqqqqqqqqqqqqqqqqqqqqqqqqqqqqqqqqqqqqqqqqqqqqqqqqqqqqqqqqqqqqqqqqqqqqqqqqqqqqqqqqqqqqqqqqqqqqqqqqqqqqqqqqqqqqqqqqqqqqqqqqqqqqqqqqqqqqqqqqqqqqqqqqqqqqqqqqqqqqqqqqqqqqqqqqqqqqqqqqqqqqqqqqqqqqqqqqqqqqqqqqqqqqqqqqqqqqqqqqqqqqqqqqqqqqqqqqqqqqqqqqqqqqqqqqqqqqqqqqqqqqqqqqqqqqqqqqqqqqqqqqqqq http://example.org/qqqqqqqqqqqqqqqqqqqqqqqqqqqqqqqqqqqqqqqqqqqqqqqqqqqqqqqqqqqqqqqqqqqqqqqqqqqqqqqqqqqqqqqqqqqqqqqqqqqqqqqqqqqqqqqqqqqqqqqqqqqqqqqqqqqqqqqqqqqqqqqqqqqqqqqqqqqqqqqqqqqqqqqqqqqqqqqqqqqqqqqqqqqqqqqqqqqqqqqqqqqqqqqqqqqqqqqqqqqqqqqqqqqqqqqqqqqqqqqqqqqqqqqqqqqqqqqqqqqqqqqqqqqqqqqqqqqqqqqqqqqqqqqqqqqqqqqqqqqqqqqqqqqqqqqqqqqqqqqqqqqqqqqqqqqqqqqqqqqqqqqqqqqqqqqqqqqqqqqqqqqqqqqqqqqqqqqqqqqqqqqqqqqqqqqqqqqqqqqqqqqqqqqqqqqqqqqqqqqqqqqqqqqqqqqqqqqqqqqqqqqqqqqqqqqqqqqqqqqqqqqqqqqqqqqqqqqqqqqqqqqqqqqqqqqqqqqqqqqqqqqqqqqqqqqqqqqqqqqqqqqqqqqqqqqqqqqqqqqqqqqqqqqqqqqqqqqqqqqqqqqqqqqqqqqqqqqqqqqqqqqqqqqqqqqqqqqqqqqq', 'rename': ['LongerBotNick_1', 'x', 'LongerBotNick_123456']},
     {'op': 'live', 'kind': 'corpus', 'botprefix': 'test!user@host.example', 'nick': 'alice', 'chan': '#chan', 'private': False, 'prefixNick': True, 'noticePriv': True, 'mores': True, 'length': 0, 'maximum': 50, 'instant': 1, 'number': 1, 's': 'w000w000w000w000w000w000w000w000w000w000w000w000w000w000w000w000w000w000w000w000 w001w001w001w001w001w001w001w001w001w001w001w001w001w001w001w001w001w001w001w001 w002w002w002w002w002w002w002w002w002w002w002w002w002w002w002w002w002w002w002w002 w003w003w003w003w003w003w003w003w003w003w003w003w003w003w003w003w003w003w003w003 w004w004w004w004w004w004w004w004w004w004w004w004w004w004w004w004w004w004w004w004 w005w005w005w005w005w005w005w005w005w005w005w005w005w005w005w005w005w005w005w005 w006w006w006w006w006w006w006w006w006w006w006w006w006w006w006w006w006w006w006w006 w007w007w007w007w007w007w007w007w007w007w007w007w007w007w007w007w007w007w007w007 w008w008w008w008w008w008w008w008w008w008w008w008w008w008w008w008w008w008w008w008 w009w009w009w009w009w009w009w009w009w009w009w009w009w009w009w009w009w009w009w009 w010w010w010w010w010w010w010w010w010w010w010w010w010w010w010w010w010w010w010w010 w011w011w011w011w011w011w011w011w011w011w011w011w011w011w011w011w011w011w011w011 w012w012w012w012w012w012w012w012w012w012w012w012w012w012w012w012w012w012w012w012 w013w013w013w013w013w013w013w013w013w013w013w013w013w013w013w013w013w013w013w013 w014w014w014w014w014w014w014w014w014w014w014w014w014w014w014w014w014w014w014w014 w015w015w015w015w015w015w015w015w015w015w015w015w015w015w015w015w015w015w015w015 w016w016w016w016w016w016w016w016w016w016w016w016w016w016w016w016w016w016w016w016 w017w017w017w017w017w017w017w017w017w017w017w017w017w017w017w017w017w017w017w017 w018w018w018w018w018w018w018w018w018w018w018w018w018w018w018w018w018w018w018w018 w019w019w019w019w019w019w019w019w019w019w019w019w019w019w019w019w019w019w019w019 w020w020w020w020w020w020w020w020w020w020w020w020w020w020w020w020w020w020w020w020 w021w021w021w021w021w021w021w021w021w021w021w021w021w021w021w021w021w021w021w021 w022w022w022w022w022w022w022w022w022w022w022w022w022w022w022w022w022w022w022w022 w023w023w023w023w023w023w023w023w023w023w023w023w023w023w023w023w023w023w023w023 w024w024w024w024w024w024w024w024w024w024w024w024w024w024w024w024w024w024w024w024 w025w025w025w025w025w025w025w025w025w025w025w025w025w025w025w025w025w025w025w025 w026w026w026w026w026w026w026w026w026w026w026w026w026w026w026w026w026w026w026w026 w027w027w027w027w027w027w027w027w027w027w027w027w027w027w027w027w027w027w027w027 w028w028w028w028w028w028w028w028w028w028w028w028w028w028w028w028w028w028w028w028 w029w029w029w029w029w029w029w029w029w029w029w029w029w029w029w029w029w029w029w029 w030w030w030w030w030w030w030w030w030w030w030w030w030w030w030w030w030w030w030w030 w031w031w031w031w031w031w031w031w031w031w031w031w031w031w031w031w031w031w031w031 w032w032w032w032w032w032w032w032w032w032w032w032w032w032w032w032w032w032w032w032 w033w033w033w033w033w033w033w033w033w033w033w033w033w033w033w033w033w033w033w033 w034w034w034w034w034w034w034w034w034w034w034w034w034w034w034w034w034w034w034w034 w035w035w035w035w035w035w035w035w035w035w035w035w035w035w035w035w035w035w035w035 w036w036w036w036w036w036w036w036w036w036w036w036w036w036w036w036w036w036w036w036 w037w037w037w037w037w037w037w037w037w037w037w037w037w037w037w037w037w037w037w037 w038w038w038w038w038w038w038w038w038w038w038w038w038w038w038w038w038w038w038w038 w039w039w039w039w039w039w039w039w039w039w039w039w039w039w039w039w039w039w039w039', 'ops': 'NA'},   # old witness of C12.F44 (repaired): zed's `more alice`, then alice's own `more`
     {'op': 'live', 'kind': 'corpus', 'botprefix': 'test!user@host.example', 'nick': 'alice', 'chan': '#chan', 'private': False, 'prefixNick': True, 'noticePriv': True, 'mores': True, 'length': 0, 'maximum': 50, 'instant': 1, 'number': 2, 's': 'w000w000w000w000w000w000w000w000w000w000w000w000w000w000w000w000w000w000w000w000 w001w001w001w001w001w001w001w001w001w001w001w001w001w001w001w001w001w001w001w001 w002w002w002w002w002w002w002w002w002w002w002w002w002w002w002w002w002w002w002w002 w003w003w003w003w003w003w003w003w003w003w003w003w003w003w003w003w003w003w003w003 w004w004w004w004w004w004w004w004w004w004w004w004w004w004w004w004w004w004w004w004 w005w005w005w005w005w005w005w005w005w005w005w005w005w005w005w005w005w005w005w005 w006w006w006w006w006w006w006w006w006w006w006w006w006w006w006w006w006w006w006w006 w007w007w007w007w007w007w007w007w007w007w007w007w007w007w007w007w007w007w007w007 w008w008w008w008w008w008w008w008w008w008w008w008w008w008w008w008w008w008w008w008 w009w009w009w009w009w009w009w009w009w009w009w009w009w009w009w009w009w009w009w009 w010w010w010w010w010w010w010w010w010w010w010w010w010w010w010w010w010w010w010w010 w011w011w011w011w011w011w011w011w011w011w011w011w011w011w011w011w011w011w011w011 w012w012w012w012w012w012w012w012w012w012w012w012w012w012w012w012w012w012w012w012 w013w013w013w013w013w013w013w013w013w013w013w013w013w013w013w013w013w013w013w013 w014w014w014w014w014w014w014w014w014w014w014w014w014w014w014w014w014w014w014w014 w015w015w015w015w015w015w015w015w015w015w015w015w015w015w015w015w015w015w015w015 w016w016w016w016w016w016w016w016w016w016w016w016w016w016w016w016w016w016w016w016 w017w017w017w017w017w017w017w017w017w017w017w017w017w017w017w017w017w017w017w017 w018w018w018w018w018w018w018w018w018w018w018w018w018w018w018w018w018w018w018w018 w019w019w019w019w019w019w019w019w019w019w019w019w019w019w019w019w019w019w019w019 w020w020w020w020w020w020w020w020w020w020w020w020w020w020w020w020w020w020w020w020 w021w021w021w021w021w021w021w021w021w021w021w021w021w021w021w021w021w021w021w021 w022w022w022w022w022w022w022w022w022w022w022w022w022w022w022w022w022w022w022w022 w023w023w023w023w023w023w023w023w023w023w023w023w023w023w023w023w023w023w023w023 w024w024w024w024w024w024w024w024w024w024w024w024w024w024w024w024w024w024w024w024 w025w025w025w025w025w025w025w025w025w025w025w025w025w025w025w025w025w025w025w025 w026w026w026w026w026w026w026w026w026w026w026w026w026w026w026w026w026w026w026w026 w027w027w027w027w027w027w027w027w027w027w027w027w027w027w027w027w027w027w027w027 w028w028w028w028w028w028w028w028w028w028w028w028w028w028w028w028w028w028w028w028 w029w029w029w029w029w029w029w029w029w029w029w029w029w029w029w029w029w029w029w029 w030w030w030w030w030w030w030w030w030w030w030w030w030w030w030w030w030w030w030w030 w031w031w031w031w031w031w031w031w031w031w031w031w031w031w031w031w031w031w031w031 w032w032w032w032w032w032w032w032w032w032w032w032w032w032w032w032w032w032w032w032 w033w033w033w033w033w033w033w033w033w033w033w033w033w033w033w033w033w033w033w033 w034w034w034w034w034w034w034w034w034w034w034w034w034w034w034w034w034w034w034w034 w035w035w035w035w035w035w035w035w035w035w035w035w035w035w035w035w035w035w035w035 w036w036w036w036w036w036w036w036w036w036w036w036w036w036w036w036w036w036w036w036 w037w037w037w037w037w037w037w037w037w037w037w037w037w037w037w037w037w037w037w037 w038w038w038w038w038w038w038w038w038w038w038w038w038w038w038w038w038w038w038w038 w039w039w039w039w039w039w039w039w039w039w039w039w039w039w039w039w039w039w039w039', 'ops': 'NABAB'},
     {'op': 'live', 'kind': 'corpus', 'botprefix': 'test!limnoria@bot.users.example.org', 'nick': 'a_rather_long_nickname', 'chan': '#c', 'private': False, 'prefixNick': True, 'noticePriv': True, 'mores': True, 'length': 0, 'maximum': 50, 'instant': 1, 'number': 1, 'kwPrivate': True, 's': 'yyyyyyyyyyyyyyyyyyyyyyyyyyyyyyyyyyyyyyyyyyyyyyyyyyyyyyyyyyyyyyyyyyyyyyyyyyyyyyyyyyyyyyyyyyyyyyyyyyyyyyyyyyyyyyyyyyyyyyyyyyyyyyyyyyyyyyyyyyyyyyyyyyyyyyyyyyyyyyyyyyyyyyyyyyyyyyyyyyyyyyyyyyyyyyyyyyyyyyyyyyyyyyyyyyyyyyyyyyyyyyyyyyyyyyyyyyyyyyyyyyyyyyyyyyyyyyyyyyyyyyyyyyyyyyyyyyyyyyyyyyyyyyyyyyyyyyyyyyyyyyyyyyyyyyyyyyyyyyyyyyyyyyyyyyyyyyyyyyyyyyyyyyyyyyyyyyyyyyyyyyyyyyyyyyyyyyyyyyyyyyyyyyyyyyyyyyyyyyyyyyyyyyyyyyyyyyyyyyyyyyyyyyyyyyyyyyyyyyyyyyyyyyyyyyyyyyyyyyyyyyyyyyyyyyyyyyyyyyyyyyyyyyyyyyyyyyyyyyyyyyyyyyyyyyyyyyyyyyyyyyyyyyyyyyyyyyyyyyyyyyyyyyyyyyyyyyyyyyyyyyyyyyyyyyyyyyyyyyyyyyyyyyyyyyyyyyyyyyyyyyyyyyyyyyyyyyyyyyyyyyyyyyyyyyyyyyyyyyyyyyyyyyyyyyyyyyyyyyyyyyyyyyyyyyyyyyyyyyyyyyyyyyyyyyyyyyyyyyyyyyyyyyyyyyyyyyyyyyyyyyyyyyyyyyyyyyyyyyyyyyyyyyyyyyyyyyyyyyyyyyyyyyyyyyyyyyyyyyyyyyyyyyyyyyyyyyyyyyyyyyyyyyyyyyyyyyyyyyyyyyyyyyyyyyyyyyyyyyyyyyyyyyyyyyyyyyyyyyyyyyyyyyyyyyyyyyyyyyyyyyyyyyyyyyyyyyyyyyyyyyyyyyyyyyyyyyyyyyyyyyyyyyyyyyyyyyyyyyyyyyyyyyyyyyyyyyyyyyyyyyyyyyyyyyyyyyyyyyyyyyyyyyyyyyyyyyyyyyyyyyyyyyyyyyyyyyyyyyyyyyyyyyyyyyyyyyyyyyyyyyyyyyyyyyyyyyyyyyyyyyyyyyyyyyyyyyyyyyyyyyyyyyyyyyyyyyyyyyyyyyyyyyyyyyyyyyyyyyyyyyyyyyyyyyyyyyyyyyyyyyyyyyyyyyyyyyyyyyyyyyyyyyyyyyyyyyyyyyyyyyyyyyyyyyyyyyyyyyyyyyyyyyyyyyyyyyyyyyyyyyyyyyyyyyyyyyyyyyyyyyyyyyyyyyyyyyyyyyyyyyyyyyyyyyyyyyyyyyyyyyyyyyyyyyyyyyyyyyyy'},   # private=True in a channel, long nick: fits only thanks to the nick-prefix reserve
@@ -639,6 +664,15 @@ def check_live(ctx, inp, ircutils, kind=None):
             flat = [m for r in rounds for m in r]
             if not (flat and ERR in flat[0]):
                 ctx.disagree(inp, mr, rounds[:2], 'live: model raises, bot answered')
+    if inp.get('rename'):
+        # the model of Irc.feedMsg / Irc.doNick on the same events
+        nicks, (user, host) = inp['rename'], inp['botprefix'].split('!', 1)[1].split('@', 1)
+        evs = [[0, nicks[0], user, host, '']] + [[1, cur, user, host, new] for cur, new in zip(nicks, nicks[1:])]
+        io = ctx.model([[9, [nicks[0], '%s!limnoria@unset.domain' % nicks[0], evs]]])[0]
+        if io is not None and [wire.s(io[0]), wire.s(io[1])] != inp['_ident']:
+            ctx.disagree(inp, [wire.s(io[0]), wire.s(io[1])], inp['_ident'], 'irc.nick / irc.prefix after own JOIN and NICK')
+        if inp['_ident'] != [inp['botprefix'].split('!')[0], inp['botprefix']]:
+            ctx.fail(inp, 'irc.nick / irc.prefix are %r but the server knows the bot as %r' % (inp['_ident'], inp['botprefix']))
     live_oracle(ctx, inp, public, owner_rounds(inp, rounds), ircutils)
 
 
@@ -659,7 +693,7 @@ def run(ctx):
     run_unit(ctx, unit_inputs(ctx), ircutils, utils)
     rng = ctx.rng
     plan = (('plain', 120), ('mb', 100), ('ws', 60), ('fmt', 120), ('color0', 40), ('junction', 60), ('hostile', 80), ('many', 20),
-            ('nonascii', 15), ('privnick', 15), ('keywords', 150), ('nickmore', 80))
+            ('nonascii', 15), ('privnick', 15), ('keywords', 150), ('nickmore', 80), ('rename', 60))
     for kind, base in plan:
         for _ in range(ctx.n(base)):
             check_live(ctx, gen_live(rng, kind), ircutils)
@@ -676,6 +710,8 @@ def replay(ctx, inp):
     else:
         inp = dict(inp)
         public, rounds = live_run(inp)
+        if inp.get('rename') and inp['_ident'] != [inp['botprefix'].split('!')[0], inp['botprefix']]:
+            sub.fail(inp, 'irc.nick / irc.prefix are %r but the server knows the bot as %r' % (inp['_ident'], inp['botprefix']))
         live_oracle(sub, inp, public, owner_rounds(inp, rounds), ircutils)
     return sub.failures[0]['detail'] if sub.failures else None
 
